@@ -284,6 +284,43 @@ def check_misc(_):
         except RuntimeError:
             continue
         return ("rejects.elaborated", "addition after elaboration accepted")
+    # ... and a REFUSED edit is no edit: every way of adding or moving something on the elaborated module is refused and
+    # leaves every name denoting the object it denoted, every object named as it was, and the exported package unchanged
+    def snapshot(m):
+        return ([(k, id(v), v.name) for k, v in m.namespace.items()],
+                {kd: [(k, id(v)) for k, v in getattr(m, kd).items()] for kd in ("ports", "signals", "instances", "instarrays", "bundles")})
+    F = h.Module(name="Frozen")
+    F.a, F.b, F.p = h.Signal(), h.Signal(width=2), h.Port()
+    F.r = h.R(r=1)(p=F.a, n=F.p)
+    F.e = h.ExternalModule(name="FzE", port_list=[h.Inout(name="w", width=2)], desc="", domain="c18")()(w=F.b)
+    before_pkg = h.to_proto(F).SerializeToString(deterministic=True)
+    before = snapshot(F)
+    outside = h.Signal(name="outside")
+    edits = {
+        "move signal onto a used name": lambda: setattr(F, "b", F.a),
+        "move signal onto a new name": lambda: setattr(F, "c", F.a),
+        "move instance": lambda: setattr(F, "r2", F.r),
+        "instance onto a signal's name": lambda: setattr(F, "a", F.r),
+        "new signal under a used name": lambda: setattr(F, "a", h.Signal(width=3)),
+        "named newcomer by assignment": lambda: setattr(F, "n", outside),
+        "add() under a used name": lambda: F.add(h.Signal(), name="a"),
+        "add() of a held object": lambda: F.add(F.a),
+        "port onto a signal's name": lambda: setattr(F, "a", h.Port()),
+    }
+    for what, f in edits.items():
+        try:
+            f()
+        except RuntimeError:
+            pass
+        else:
+            return ("rejects.elaborated", f"after elaboration: {what} was accepted")
+        if snapshot(F) != before:
+            return ("rejects.elaborated.trace", f"after elaboration: {what} was refused but changed the module: names / views "
+                                                f"{snapshot(F)[0]} (before: {before[0]})")
+        if outside.name != "outside":
+            return ("rejects.elaborated.trace", f"after elaboration: {what} was refused but renamed the object to {outside.name!r}")
+    if h.to_proto(F).SerializeToString(deterministic=True) != before_pkg:
+        return ("rejects.elaborated.trace", "refused edits of an elaborated module changed its exported package")
     return None
 
 
